@@ -17,7 +17,12 @@ pub struct Observed {
 
 pub fn observe(cfg: &SvcCfg, req: &Req, body: Body) -> Observed {
     let (svc, log) = cfg.build();
-    let out = call(&svc, req, body);
+    observe_on(&svc, &log, req, body)
+}
+
+/// the same on a service that already exists (histories: several requests through one instance; the caller clears the log)
+pub fn observe_on(svc: &s3s::service::S3Service, log: &Log, req: &Req, body: Body) -> Observed {
+    let out = call(svc, req, body);
     let evs = log.lock().unwrap().clone();
     let mut accepted_as = None;
     let mut downstream = Vec::new();
@@ -42,7 +47,7 @@ pub fn observe(cfg: &SvcCfg, req: &Req, body: Body) -> Observed {
     Observed {
         accepted_as,
         downstream_events: downstream,
-        backend: backend_calls(&log),
+        backend: backend_calls(log),
         verdict: out.verdict(),
         status: out.resp().map(|r| r.status.as_u16()),
     }
